@@ -320,6 +320,12 @@ func propC04(c *Ctx) {
 	// ---- R4.4 ---------------------------------------------------------
 	c.Rule("R4.4", "stores through a *eth.Block taken from the block map happen under that block's lock (delegated to C18 R18.4a; same check)", 3)
 	checkBlockMapMutation(c, "R4.4")
+	c.Rule("R4.6", "every row is stamped: the ig_name/src_name selectors are always added, independently of user-declared columns", 6)
+	checkRequiredFieldsIndependent(c, "R4.6")
+	c.Rule("R4.7", "a task emits only what its own filters accept: every cell value is offered to its column's filter (logs left in a shared cached block by another task cannot slip through)", 6)
+	checkEveryCellFiltered(c, "R4.7")
+	c.Rule("R4.5", "attaching logs to a block shared with another task drops a log only as a duplicate", 2)
+	checkLogsAddDedup(c, "R4.5")
 }
 
 func fieldIs(v ssa.Value, f *types.Var) bool {
